@@ -30,6 +30,9 @@ FRAGMENTS = {
     'unbalanced': ['hue {1 + 2', 'hue {(1 + 2}', 'hue {1 + 2)}', 'hue {1 + 2}}', 'define f with a begin hue a end hue [f 1',
                    'define f with a begin hue a end hue [f 1]]', 'hue {[round 1.5}', 'hue (1)', 'hue {((1)}', 'hue }', 'hue ]', 'print {1} }',
                    'hue {1 + (2 * 3}', 'hue {1 + 2 * 3)}', 'assign x {', 'hue [round {1.5]}', 'if {(1 < 2} hue 1', 'print {1 + }'],
+    # outside expressions a minus is allowed in front of a number only: a time pattern, a string, a name that is no number macro
+    'minus-before-non-number': ['hue -12:00', 'time -1*:30', 'define dawn 6:15 time -dawn', 'define dawn 6:15 assign x -dawn', 'define f with a begin hue a end f -23:59',
+                                'assign v 5 hue -v', 'hue -"x"', 'define s "txt" hue -s', 'time at -12:00', 'print -5', 'define dawn *:30 duration -dawn'],
     'bad-time-pattern': ['time at 25:00', 'time at 12:60', 'time at 8:00 or 25:00', 'time at 8:00 or 9:00 or 12:75', 'time at 1:2', 'time at 123:00',
                          'time at -8:00', 'time at 8:00 or', 'define t 25:00', 'define t 12:30 time at t or 24:00', 'time at 3*:00', 'time at *:6*',
                          'time at 8:00 or noon', 'time at 24:00', 'time at 8:0', 'time at :30', 'time at 8:', 'time at 8:00 or 7:61 or 9:00', 'time at **:00',
